@@ -2,6 +2,8 @@ import SqlModel.Default
 import SqlProofs.LexRegions
 import SqlProofs.LexDollar
 import SqlProofs.LexScan
+import SqlProofs.LexWords
+import SqlProofs.LexDictWords
 /-!
 # C14 — opaque regions are one token (character level)
 
@@ -151,6 +153,64 @@ theorem block_comment_in_output (s : Array Cp) (p : Nat) (pre body rest : List C
   have := block_comment s p pre body rest h hp hplus hno hle
   rw [this]; simp; omega
 
+/-! ## keywords classify by table
+
+Vocabulary (SqlProofs/LexWords.lean, SqlProofs/LexDictWords.lean): `asciiFold` = ASCII upper-casing of a code point; `wordTailSet` = `[$#\w]`;
+`WordDelim c` = `c` is not in `[$#\w]`, not `str.isspace`, not `(` and not `.`; `dictWords` = all keys of the generated keyword dictionaries;
+`uncertified` = the 19 entries listed there (words with a dedicated earlier rule, `WITH`, and four entries that are not single words). -/
+
+/-- **case invariance.** `Lexer.is_keyword` gives the same token type to two ASCII texts that differ only in the case of ASCII letters
+(`str.upper` on ASCII is checked against the generated table, all 128 entries). -/
+theorem keyword_case_invariant (w w' : Text) (hw : ∀ c ∈ w, c < 128) (hw' : ∀ c ∈ w', c < 128)
+    (h : w'.map asciiFold = w.map asciiFold) : isKeyword defaultCfg w' = isKeyword defaultCfg w :=
+  isKeyword_case_invariant w w' hw hw' h
+
+/-- **maximal munch of the word rule** (`\w[$#\w]*`, rule 47, `PROCESS_AS_KEYWORD`): at a `\w` character followed by a run of `[$#\w]`
+characters and then a character outside `[$#\w]` or the end of the text, the first derivation ends exactly at the end of the run. -/
+theorem word_rule_munch (E : Env) (p : Nat) (c0 : Cp) (run tail : List Cp)
+    (h0 : E.s.toList.drop p = c0 :: (run ++ tail)) (hc0 : Gen.wordSet.mem c0 = true)
+    (hrun : ∀ x ∈ run, wordTailSet.mem x = true) (htail : ∀ x, tail.head? = some x → wordTailSet.mem x = false) :
+    ∃ more, derivs E Gen.re47 ⟨p, []⟩ = ⟨p + 1 + run.length, []⟩ :: more :=
+  word_rule_maximal_munch E p c0 run tail h0 hc0 hrun htail
+
+/-- table obligation (evaluated over dictionaries × rule table): the dictionary entries that fail the certificate `wordCert` are exactly
+the listed ones -/
+theorem dictionary_certified : dictWords.filter (fun w => !wordCert w) = uncertified := dict_words_certified
+
+/-- **dictionary words are word-rule tokens** (universal in the text, the position and the delimiter): a dictionary word other than the
+listed exceptions, in its dictionary spelling, before a delimiter and not right after a `.`, is matched by no earlier rule; the scan step is
+the word rule's and covers exactly the word, so the token is `(is_keyword(w), w)`. -/
+theorem dict_word (s : Array Cp) (p : Nat) (pre w rest : List Cp) (c : Cp)
+    (hw : w ∈ dictWords) (hn : w ∉ uncertified)
+    (h : s.toList = pre ++ w ++ c :: rest) (hp : pre.length = p) (hprev : pre.getLast? ≠ some 46) (hc : WordDelim c) :
+    firstMatch (defaultCfg.env s) defaultCfg.rules p = some (.kw, p + w.length) :=
+  dict_word_token s p pre w rest c hw hn h hp hprev hc
+
+/-- … hence, at a scan position, the output of `lex` has the token `(is_keyword(w), w)` at that offset -/
+theorem dict_word_in_lex_output (s : Array Cp) (p : Nat) (pre w rest : List Cp) (c : Cp)
+    (hw : w ∈ dictWords) (hn : w ∉ uncertified)
+    (h : s.toList = pre ++ w ++ c :: rest) (hp : pre.length = p) (hprev : pre.getLast? ≠ some 46) (hc : WordDelim c)
+    (hb : Boundary defaultCfg (defaultCfg.env s) p) :
+    ∃ ts before after, lex defaultCfg s = .ok ts ∧ ts = before ++ ⟨isKeyword defaultCfg w, w⟩ :: after ∧
+      textLen before = p ∧ Boundary defaultCfg (defaultCfg.env s) (p + w.length) :=
+  dict_word_in_output s p pre w rest c hw hn h hp hprev hc hb
+
+/-- the same for any word (not only dictionary words) that passes the certificate, e.g. a lower-case spelling or an identifier -/
+theorem certified_word (s : Array Cp) (p : Nat) (pre w rest : List Cp) (c : Cp)
+    (h : s.toList = pre ++ w ++ c :: rest) (hp : pre.length = p) (hprev : pre.getLast? ≠ some 46)
+    (hc : WordDelim c) (hcert : wordCert w = true) :
+    firstMatch (defaultCfg.env s) defaultCfg.rules p = some (.kw, p + w.length) :=
+  word_token s p pre w rest c h hp hprev hc hcert
+
+/-- **evaluated on the concrete text `w;` only** (not universal): for the words with a dedicated rule the scan step at 0 is taken by
+rule 36 (`CREATE`, DDL), rule 16 (`FROM IN AS CASE USING VALUES`, Keyword), rule 29 (`JOIN`), rule 30 (`END`), rule 45
+(`LIKE ILIKE RLIKE`, Comparison), rule 46 (`REGEXP`); `WITH;` is taken by the word rule -/
+theorem dedicated_rule_words :
+    (dedicated.all fun e =>
+      decide (firstMatch (defaultCfg.env (txt e.1 ++ [59]).toArray) defaultCfg.rules 0 = some (e.2.2.1, e.2.2.2)) &&
+      decide (firstRuleIdx (defaultCfg.env (txt e.1 ++ [59]).toArray) defaultCfg.rules 0 0 = some e.2.1)) = true :=
+  dedicated_rules
+
 /-! ## non-vacuity -/
 
 /-- the hypotheses are satisfiable: the string literal `'a;b''c'` inside `x='a;b''c';` instantiates `single_quoted` -/
@@ -190,5 +250,15 @@ example : firstMatch (defaultCfg.env #[32, 36, 97, 36, 120, 59, 36, 97, 36, 59])
 /-- executing the model: `$a$x;$A$` is one `Literal` token (the closing tag is matched case-insensitively), `$$;$$` likewise -/
 example : (lex defaultCfg #[36, 97, 36, 120, 59, 36, 65, 36, 32, 36, 36, 59, 36, 36]).toOption.map (fun ts => ts.map (·.tt)) =
     some [T.Literal, T.Whitespace, T.Literal] := by decide +kernel
+
+/-- `SELECT` in `x SELECT;` instantiates `dict_word` (position 2, after a blank, before `;`) and classifies as DML;
+`select` classifies like `SELECT` by `keyword_case_invariant` -/
+example : firstMatch (defaultCfg.env #[120, 32, 83, 69, 76, 69, 67, 84, 59]) defaultCfg.rules 2 = some (.kw, 2 + 6) :=
+  dict_word #[120, 32, 83, 69, 76, 69, 67, 84, 59] 2 [120, 32] [83, 69, 76, 69, 67, 84] [] 59 (by decide +kernel) (by decide +kernel)
+    rfl rfl (by decide) (by refine ⟨by decide +kernel, by decide +kernel, by decide, by decide⟩)
+
+example : isKeyword defaultCfg [115, 101, 108, 101, 99, 116] = T.DML := by
+  rw [keyword_case_invariant [83, 69, 76, 69, 67, 84] [115, 101, 108, 101, 99, 116] (by decide) (by decide) (by decide)]
+  decide +kernel
 
 end Sql.C14
